@@ -54,6 +54,7 @@ def run(rep: Report, tier: str) -> None:
 	rule_group_parens(rep, pm, tm)
 	rule_range_arguments(rep, pm, tm)
 	rule_initializer_conversion(rep, pm)
+	rule_fill_list_roles(rep, pm)
 
 
 # ---- (a) precedence ---------------------------------------------------------------------------------------------------
@@ -357,7 +358,8 @@ def _registered_helpers(idx: SourceIndex, rep: Report) -> tuple[set[str], set[st
 		m = idx.mod(rel)
 		rep.consulted(rel)
 		f = m.func(fn)
-		ret = [n for n in ast.walk(f.node) if isinstance(n, ast.Return)]
+		from vlib.match import FI as _FI
+		ret = [n for n in ast.walk(_FI(f)) if isinstance(n, ast.Return)]  # locals holding the two lists are substituted
 		if len(ret) != 1 or not isinstance(ret[0].value, ast.Tuple) or len(ret[0].value.elts) != 2:
 			raise AnalysisError(f'{rel}:{fn} no longer returns a (functions, filters) tuple literal')
 		for target, lst in zip((funcs, filters), ret[0].value.elts):
@@ -733,3 +735,27 @@ def rule_initializer_conversion(rep, pm) -> None:
 			r.check(node_test, f'{name}:is_initializer', (PY2CPP, site.lineno), f'{name} sets is_initializer under {[(unparse(a)[:60], p_) for a, p_ in known]}: without `isinstance(node.value, defs.FuncCall)` the brace conversion also hits every expression that merely RENDERS as `T(...)`: `xs = [v] * n` becomes `std::vector<int> xs{{n, v}};` (two elements instead of n)', unparse(site)[:140])
 	if n_sites == 0:
 		r.skip('is_initializer-sites', (PY2CPP, 1), 'no render call sets is_initializer')
+
+
+def rule_fill_list_roles(rep, pm) -> None:
+	"""`[v] * n` and `n * [v]` are the same list in Python, and proc_binary_operation accepts both orders: it decides by TYPE which operand is the list
+	(the fill value) and which the size. Everything the fill-list rendering knows about the fill operand must come from that selected operand
+	(default_raw / default); an access to a fixed position of the node (`node.elements[0]`) silently assumes the list on the left, and
+	`n * [7]` is emitted as `std::vector<int>(n)` (n zeros) instead of `std::vector<int>(n, 7)`."""
+	from vlib.match import X, closure, nodes
+	r = rep.rule('C01/fill-list-operand-by-role', 'the handler that renders operation/binary_fill_list reads the fill operand and the size through the operands selected by type, never through a fixed position of the node', floor=1)
+	sites = [s_ for s_ in pm.render_sites() if 'operation/binary_fill_list' in s_.names]
+	if not sites:
+		r.skip('binary_fill_list', (PY2CPP, 1), 'no render site of operation/binary_fill_list')
+		return
+	for s_ in sites:
+		f = s_.func
+		bad = []
+		for b in closure(f, 1):
+			for n in nodes(b, ast.Subscript):
+				if isinstance(n.value, ast.Attribute) and n.value.attr in ('elements', '_elements') and isinstance(n.slice, ast.Constant) and isinstance(n.slice.value, int):
+					bad.append(n)
+			for n in nodes(b, ast.Attribute):
+				if n.attr in ('left', 'right', 'first', 'last') and isinstance(n.value, ast.Name) and n.value.id == 'node':
+					bad.append(n)
+		r.check(not bad, f'{f.name}:positional-operand', s_.where, f'{f.name} reads `{unparse(bad[0])[:60] if bad else ""}`: a fixed position of the operator node, while the caller accepts the list on either side; for `n * [v]` the flag / value describes the size operand, and the list is emitted without its fill value (`std::vector<T>(n)`: n zero-initialised elements)', unparse(bad[0])[:80] if bad else '')
